@@ -447,6 +447,12 @@ func runStoreHist(c *Ctx, in M) (M, interface{}) {
 			switch gets(op, "op") {
 			case "createDs", "store", "txn", "deleteDs", "renameDs", "setPublicNs", "compact":
 				r.mutate(i, op)
+				if _, raced := op["race"]; raced && gets(op, "op") != "compact" {
+					obs = append(obs, M{"raced": getb(op, "raced"), "deadlock": getb(op, "deadlock")})
+					if getb(op, "deadlock") {
+						return // two writers are parked for good: nothing after this can be trusted to return
+					}
+				}
 			case "msrun":
 				obs = append(obs, r.msrun(op))
 			case "crash":
@@ -537,47 +543,13 @@ func (r *histRun) mutate(i int, op M) {
 			r.dsids[gets(op, "name")] = ds.InternalID
 			op["dsid"] = ds.InternalID
 		}
-	case "store":
-		ds := r.h.Dsm.GetDataset(gets(op, "ds"))
-		if ds == nil {
-			op["rc"] = "nods"
+	case "store", "txn":
+		if race, ok := op["race"].(map[string]interface{}); ok {
+			r.storeRaced(i, op, race)
 			return
 		}
-		ents := []*server.Entity{}
-		for _, x := range getl(op, "ents") {
-			ents = append(ents, toEntity(x.(map[string]interface{})))
-		}
-		err := ds.StoreEntities(ents)
-		if err != nil {
-			op["rc"] = "err"
-		} else if len(ents) > 0 {
-			r.times[i] = int64(ents[0].Recorded)
-			op["t"] = ents[0].Recorded
-		}
-		r.noteIDs(op, getl(op, "ents"))
-	case "txn":
-		txn := &server.Transaction{DatasetEntities: map[string][]*server.Entity{}}
-		var first *server.Entity
-		for _, p := range getl(op, "parts") {
-			pm := p.(map[string]interface{})
-			ents := []*server.Entity{}
-			for _, x := range getl(pm, "ents") {
-				ents = append(ents, toEntity(x.(map[string]interface{})))
-			}
-			if len(ents) > 0 && first == nil {
-				first = ents[0]
-			}
-			txn.DatasetEntities[gets(pm, "ds")] = ents
-		}
-		if err := r.h.Store.ExecuteTransaction(txn); err != nil {
-			op["rc"] = "err"
-		} else if first != nil {
-			r.times[i] = int64(first.Recorded)
-			op["t"] = first.Recorded
-		}
-		for _, p := range getl(op, "parts") {
-			r.noteIDs(op, getl(p.(map[string]interface{}), "ents"))
-		}
+		r.rawWrite(op)
+		r.noteWrite(i, op)
 	case "compact":
 		cw := dsvc.NewCompactor(r.h.Store, r.h.Dsm, quietLogger())
 		if race, ok := op["race"].(map[string]interface{}); ok {
@@ -943,7 +915,7 @@ func (g *storeGen) queries(opIdx int, nops int) []M {
 
 var storeProfiles = map[string][]int{
 	"c01": {0, 0, 2, 3}, "c02": {1}, "c03": {4, 5}, "c06": {2, 4, 5}, "all": {0, 1, 2, 3, 4, 5},
-	"c04": {0, 1, 1, 2, 3, 4, 5}, "c18": {1, 2, 4, 5}, "c20": {0, 1, 2, 4}, "c07": {0, 1, 2, 3, 4, 5, 6}, "c19": {6, 6, 0}, "c12": {0, 1, 2, 3, 4, 5}, "c14": {0, 1, 2, 4, 6},
+	"c04": {0, 1, 1, 2, 3, 4, 5}, "c18": {1, 2, 4, 5}, "c20": {0, 1, 2, 4}, "c07": {0, 1, 2, 3, 4, 5, 6}, "c19": {6, 6, 0}, "c12": {0, 1, 2, 3, 4, 5}, "c05": {0, 1, 2, 3, 4, 5}, "c14": {0, 1, 2, 4, 6},
 }
 
 // a dataset with several hundred entities, listed with small pages by following the tokens
@@ -980,7 +952,7 @@ func genStoreBig(c *Ctx, profile string) {
 func genStore(c *Ctx, profile string) {
 	genStoreBig(c, profile)
 	var crashPts crashPoints
-	if profile == "c04" || profile == "c12" {
+	if profile == "c04" || profile == "c12" || profile == "c05" {
 		crashPts = loadCrashPoints()
 	}
 	n := map[string]int{"quick": 200, "thorough": 900}[c.Tier]
@@ -989,6 +961,9 @@ func genStore(c *Ctx, profile string) {
 	}
 	if profile == "c04" { // every crash is a child process and two store openings
 		n = map[string]int{"quick": 90, "thorough": 400}[c.Tier]
+	}
+	if profile == "c05" { // a parked writer costs the full waiting time
+		n = map[string]int{"quick": 60, "thorough": 400}[c.Tier]
 	}
 	if profile == "c20" && c.Tier == "thorough" { // backups and restores dominate
 		n = 350
@@ -1145,6 +1120,13 @@ func genStore(c *Ctx, profile string) {
 				}
 				continue
 			}
+			if profile == "c05" && c.Rng.Intn(2) == 0 {
+				ops = append(ops, g.racedWrite(crashPts))
+				for q := 0; q < 1+c.Rng.Intn(2); q++ {
+					ops = append(ops, g.queries(len(ops), nops)...)
+				}
+				continue
+			}
 			switch r := c.Rng.Intn(10); {
 			case r < 6:
 				ds := g.dss[c.Rng.Intn(len(g.dss))]
@@ -1202,6 +1184,49 @@ func genStore(c *Ctx, profile string) {
 				M{"op": "q", "q": "related", "start": fresh, "pred": pred, "inverse": true, "scope": []string{}, "limit": 0},
 				M{"op": "q", "q": "entity", "id": fresh, "scope": []string{ds}},
 				M{"op": "q", "q": "entity", "id": "ns3:e1", "scope": []string{ds}})
+		}
+		if (profile == "c12" || profile == "c03" || profile == "c06" || profile == "all") && c.Rng.Intn(3) == 0 {
+			// one entity whose reference under one predicate is repeated and changed from version to version while a property
+			// changes or not, the versions grouped into batches at random (repeats inside one batch share their reference
+			// keys, repeats across batches do not); then a compaction (c12) and the relation read from both ends, now and pinned
+			ds := g.dss[c.Rng.Intn(len(g.dss))]
+			id := g.ids[c.Rng.Intn(len(g.ids))]
+			pred := g.preds[c.Rng.Intn(len(g.preds))]
+			tgts := []string{g.ids[c.Rng.Intn(len(g.ids))], g.ids[c.Rng.Intn(len(g.ids))], g.ids[c.Rng.Intn(len(g.ids))]}
+			tgt, k := tgts[0], 0
+			var batch []M
+			first := len(ops)
+			for v := 3 + c.Rng.Intn(5); v > 0; v-- {
+				if c.Rng.Intn(3) == 0 {
+					tgt = tgts[c.Rng.Intn(3)]
+				}
+				if c.Rng.Intn(3) != 0 {
+					k++
+				}
+				var ref interface{} = tgt
+				if c.Rng.Intn(4) == 0 {
+					ref = []interface{}{tgt}
+				}
+				batch = append(batch, M{"id": id, "deleted": c.Rng.Intn(10) == 0, "props": M{"ns3:p0": k}, "refs": M{pred: ref}})
+				if c.Rng.Intn(2) == 0 || v == 1 {
+					ops = append(ops, M{"op": "store", "ds": ds, "ents": batch})
+					batch = nil
+				}
+			}
+			last := len(ops) - 1
+			if profile == "c12" || profile == "all" {
+				ops = append(ops, M{"op": "compact", "ds": ds, "threshold": []int{1, 2, 3, 100000}[c.Rng.Intn(4)]})
+			}
+			for _, t := range tgts {
+				ops = append(ops, M{"op": "q", "q": "related", "start": t, "pred": pred, "inverse": true, "scope": []string{}, "limit": 0})
+			}
+			ops = append(ops, M{"op": "q", "q": "related", "start": id, "pred": pred, "inverse": false, "scope": []string{}, "limit": 0},
+				M{"op": "q", "q": "related", "start": id, "pred": "*", "inverse": false, "scope": []string{ds}, "limit": 0})
+			for n := 0; n < 3; n++ {
+				at := M{"op": first + c.Rng.Intn(last-first+1), "delta": 0}
+				ops = append(ops, M{"op": "q", "q": "related", "start": id, "pred": pred, "inverse": false, "scope": []string{}, "limit": 0, "at": at},
+					M{"op": "q", "q": "related", "start": tgts[c.Rng.Intn(3)], "pred": pred, "inverse": true, "scope": []string{}, "limit": 0, "at": at})
+			}
 		}
 		if profile == "c20" && c.Rng.Intn(2) == 0 {
 			// the first write after a backup run is a single-commit metadata change (dataset deleted / created), then
@@ -1284,6 +1309,19 @@ func genStore(c *Ctx, profile string) {
 				}
 			}
 		}
+		if profile == "c05" {
+			if len(crashPts.Points) == 0 {
+				c.Emit("c05.nopoints", M{"error": crashPts.Error}, M{"error": "tools/instr found no schedule points in the source"})
+				return
+			}
+			// a rejected batch has drawn change-log sequence numbers: feed positions are compared by rank
+			for _, op := range ops {
+				if gets(op, "q") == "changes" {
+					op["rank"] = true
+					op["since"] = 0
+				}
+			}
+		}
 		doHist(c, M{"ops": ops})
 	}
 }
@@ -1298,7 +1336,7 @@ func doHist(c *Ctx, in M) {
 }
 
 func init() {
-	for _, p := range []string{"c01", "c02", "c03", "c06", "all", "c07", "c19", "c12", "c14", "c20"} {
+	for _, p := range []string{"c01", "c02", "c03", "c06", "all", "c07", "c19", "c12", "c14", "c20", "c05"} {
 		p := p
 		register("store-"+p, func(c *Ctx) { genStore(c, p) })
 	}
